@@ -368,3 +368,232 @@ Lemma sign_msg_get_appointment_inj p a b :
 Proof.
   unfold sign_msg_get_appointment. intros Ha Hb E. apply app_inv_head in E. apply hex_encode_inj; assumption.
 Qed.
+
+(* ------------------------------------------------------------------------------------------ *)
+(* JSON values: serialising then parsing is the identity                                      *)
+(* ------------------------------------------------------------------------------------------ *)
+Scheme kind_mind := Induction for kind Sort Prop
+  with msg_mind := Induction for msg Sort Prop
+  with fields_mind := Induction for fields Sort Prop
+  with msgs_mind := Induction for msgs Sort Prop.
+Combined Scheme spec_mutind from kind_mind, msg_mind, fields_mind, msgs_mind.
+
+Lemma find_all_notin name o : ~ In name (map fst o) -> find_all name o = [].
+Proof.
+  induction o as [|[k v] o IH]; simpl; intros H; [reflexivity|].
+  destruct (str_eqb name k) eqn:E.
+  - apply str_eqb_eq in E. subst. exfalso. apply H. left. reflexivity.
+  - apply IH. intros Hin. apply H. right. exact Hin.
+Qed.
+
+Section Roundtrip.
+  Context (T : status_table).
+
+  Lemma dec_hex_list_enc l : forallb wf_bytesb l = true ->
+    dec_hex_list (map (fun b => JStr (hex_encode b)) l) = Some l.
+  Proof.
+    induction l as [|b l IH]; simpl; intros H; [reflexivity|].
+    apply andb_true_iff in H. destruct H as [H1 H2]. rewrite (hex_roundtrip b H1), (IH H2). reflexivity.
+  Qed.
+
+  Lemma dec_u8_list_enc b : wf_bytesb b = true ->
+    dec_u8_list (map (fun x => JNum (Z.of_N x)) b) = Some b.
+  Proof.
+    induction b as [|x b IH]; intros H; [reflexivity|].
+    apply wf_bytesb_cons in H. destruct H as [Hx Hb]. cbn [map dec_u8_list]. rewrite (IH Hb).
+    replace (U8b (Z.of_N x)) with true.
+    - rewrite N2Z.id. reflexivity.
+    - symmetry. unfold U8b. apply andb_true_iff. split; [apply Z.leb_le | apply Z.ltb_lt]; lia.
+  Qed.
+
+  Lemma keys_enc_fields fs vs : incl (map fst (enc_fields T fs vs)) (field_names fs).
+  Proof.
+    revert vs. induction fs as [|name k r IH]; intros vs; simpl; [intros x []|].
+    destruct vs as [|v vr]; simpl; [intros x []|].
+    intros x [E|Hin]; [left; exact E | right; apply (IH vr); exact Hin].
+  Qed.
+
+  (* every field of the spec is bound exactly once in o, to the emission of its value *)
+  Fixpoint lookup_ok (fs : fields) (vs : vals) (o : list (str * json)) : Prop :=
+    match fs, vs with
+    | FNil, VNil => True
+    | FCons name k r, VCons v vr => find_all name o = [enc_kind T k v] /\ lookup_ok r vr o
+    | _, _ => False
+    end.
+
+  Lemma lookup_ok_weaken fs vs o name e :
+    ~ In name (field_names fs) -> lookup_ok fs vs o -> lookup_ok fs vs ((name, e) :: o).
+  Proof.
+    revert vs. induction fs as [|n k r IH]; intros [|v vr] Hn H; simpl in *; auto.
+    destruct H as [H1 H2]. split.
+    - replace (str_eqb n name) with false; [exact H1|].
+      symmetry. apply str_eqb_neq. intros E. apply Hn. left. congruence.
+    - apply IH; auto.
+  Qed.
+
+  Lemma lookup_ok_self fs vs :
+    NoDup (field_names fs) -> typed_fieldsb T fs vs = true -> lookup_ok fs vs (enc_fields T fs vs).
+  Proof.
+    revert vs. induction fs as [|n k r IH]; intros [|v vr] ND Ty; simpl in *; try discriminate; auto.
+    inversion ND as [|? ? Hn ND']; subst.
+    apply andb_true_iff in Ty. destruct Ty as [_ Ty]. split.
+    - rewrite str_eqb_refl. f_equal. apply find_all_notin. intros Hin. apply Hn.
+      apply (keys_enc_fields r vr). exact Hin.
+    - apply lookup_ok_weaken; auto.
+  Qed.
+
+  Lemma dec_fields_missing_required fs o n :
+    In n (required_names fs) -> find_all n o = [] -> dec_fields T fs o = None.
+  Proof.
+    induction fs as [|name k r IH]; simpl; intros Hin Hf; [contradiction|].
+    destruct (is_optional k) eqn:Eo.
+    - rewrite (IH Hin Hf).
+      destruct (match find_all name o with [] => Some VNone | [j] => dec_kind T k j | _ :: _ :: _ => None end); reflexivity.
+    - destruct Hin as [E|Hin].
+      + subst. rewrite Hf. reflexivity.
+      + rewrite (IH Hin Hf).
+        destruct (match find_all name o with [] => None | [j] => dec_kind T k j | _ :: _ :: _ => None end); reflexivity.
+  Qed.
+
+  (* a variant tried earlier rejects the emission of a later one *)
+  Lemma distinguishable_rejects a b mv :
+    distinguishableb a b = true -> typed_msgb T b mv = true -> dec_msg T a (enc_msg T b mv) = None.
+  Proof.
+    destruct a as [fa|], b as [fb|]; simpl; try discriminate.
+    intros D Ty. destruct mv as [vs| |]; try discriminate.
+    apply existsb_exists in D. destruct D as [n [Hreq Hn]].
+    rewrite (dec_fields_missing_required fa _ n Hreq); [reflexivity|].
+    apply find_all_notin. intros Hin. apply (keys_enc_fields fb vs) in Hin.
+    apply mem_str_In in Hin. rewrite Hin in Hn. discriminate.
+  Qed.
+
+  Lemma distinguishable_rejects_variant a ms n mv :
+    forall_msgs (distinguishableb a) ms = true -> typed_variantb T ms n mv = true ->
+    dec_msg T a (enc_variant T ms n mv) = None.
+  Proof.
+    revert n. induction ms as [|m r IH]; intros n D Ty; simpl in *; [discriminate|].
+    apply andb_true_iff in D. destruct D as [D1 D2].
+    destruct n as [|n']; [apply distinguishable_rejects; assumption | apply IH; assumption].
+  Qed.
+
+  Lemma has_required_rejects_empty m : has_requiredb m = true -> dec_msg T m (JObj []) = None.
+  Proof.
+    destruct m as [fs|]; simpl; [|discriminate].
+    destruct (required_names fs) as [|n rest] eqn:E; [discriminate|]. intros _.
+    rewrite (dec_fields_missing_required fs [] n); [reflexivity | rewrite E; left; reflexivity | reflexivity].
+  Qed.
+
+  Lemma enc_variant_obj ms n mv :
+    forall_msgs has_requiredb ms = true -> typed_variantb T ms n mv = true ->
+    exists o, enc_variant T ms n mv = JObj o.
+  Proof.
+    revert n. induction ms as [|m r IH]; intros n H Ty; simpl in *; [discriminate|].
+    apply andb_true_iff in H. destruct H as [H1 H2].
+    destruct n as [|n']; [|apply IH; assumption].
+    destruct m as [fs|]; [|discriminate]. simpl in Ty. destruct mv as [vs| |]; try discriminate.
+    simpl. eauto.
+  Qed.
+
+  Lemma wf_variants_required ms : wf_variantsb ms = true -> forall_msgs has_requiredb ms = true.
+  Proof.
+    induction ms as [|m r IH]; simpl; intros H; [reflexivity|].
+    repeat (apply andb_true_iff in H; destruct H as [H ?]).
+    apply andb_true_iff. split; auto.
+  Qed.
+
+  Lemma enc_msg_obj m mv : wf_msgb m = true -> typed_msgb T m mv = true -> exists o, enc_msg T m mv = JObj o.
+  Proof.
+    destruct m as [fs|ms]; simpl; intros W Ty.
+    - destruct mv as [vs| |]; try discriminate. simpl. eauto.
+    - destruct mv as [| |n mv']; try discriminate; simpl; [eauto|].
+      apply enc_variant_obj; auto. apply wf_variants_required. exact W.
+  Qed.
+
+  Definition PK (k : kind) : Prop :=
+    wf_kindb k = true -> forall v, typed_kindb T k v = true -> dec_kind T k (enc_kind T k v) = Some v.
+  Definition PM (m : msg) : Prop :=
+    wf_msgb m = true -> forall mv, typed_msgb T m mv = true -> dec_msg T m (enc_msg T m mv) = Some mv.
+  Definition PF (fs : fields) : Prop :=
+    wf_fieldsb fs = true -> forall vs o, typed_fieldsb T fs vs = true -> lookup_ok fs vs o ->
+    dec_fields T fs o = Some vs.
+  Definition PMs (ms : msgs) : Prop :=
+    wf_variantsb ms = true ->
+    (forall n mv i, typed_variantb T ms n mv = true ->
+                    dec_first T ms (enc_variant T ms n mv) i = MVOneof (i + n) mv) /\
+    (forall i, dec_first T ms (JObj []) i = MVOneofNone).
+
+  Lemma roundtrip_all : (forall k, PK k) /\ (forall m, PM m) /\ (forall fs, PF fs) /\ (forall ms, PMs ms).
+  Proof.
+    apply spec_mutind; unfold PK, PM, PF, PMs.
+    - (* KHex *) intros _ v Ty. destruct v; try discriminate. simpl in *. rewrite hex_roundtrip; auto.
+    - (* KHexBE *) intros _ v Ty. destruct v; try discriminate. simpl in *. rewrite behex_roundtrip; auto.
+    - (* KVecHex *) intros _ v Ty. destruct v; try discriminate. simpl in *. rewrite dec_hex_list_enc; auto.
+    - (* KStatus *) intros _ v Ty. destruct v; try discriminate. simpl in *.
+      destruct (status_parse T (status_emit T n)) as [n'|]; [|discriminate].
+      apply Z.eqb_eq in Ty. subst. reflexivity.
+    - (* KU32 *) intros _ v Ty. destruct v; try discriminate. simpl in *. rewrite Ty. reflexivity.
+    - (* KU8 *) intros _ v Ty. destruct v; try discriminate. simpl in *. rewrite Ty. reflexivity.
+    - (* KStr *) intros _ v Ty. destruct v; try discriminate. reflexivity.
+    - (* KBytesArr *) intros _ v Ty. destruct v; try discriminate. simpl in *. rewrite dec_u8_list_enc; auto.
+    - (* KOptMsg *) intros m IH W v Ty. destruct v; try discriminate; [reflexivity|].
+      simpl in W, Ty. destruct (enc_msg_obj m m0 W Ty) as [o Eo].
+      simpl. rewrite Eo. rewrite <- Eo. rewrite (IH W m0 Ty). reflexivity.
+    - (* MStruct *) intros fs IH W mv Ty. simpl in W. apply andb_true_iff in W. destruct W as [ND W].
+      destruct mv as [vs| |]; try discriminate. simpl in Ty.
+      simpl. rewrite (IH W vs _ Ty); [reflexivity|].
+      apply lookup_ok_self; auto. apply nodup_strb_NoDup. exact ND.
+    - (* MFlatOneof *) intros ms IH W mv Ty. simpl in W. destruct (IH W) as [IH1 IH2].
+      destruct mv as [| |n mv']; try discriminate.
+      + simpl. rewrite IH2. reflexivity.
+      + simpl in Ty. destruct (enc_variant_obj ms n mv' (wf_variants_required ms W) Ty) as [o Eo].
+        simpl. rewrite Eo. rewrite <- Eo. rewrite (IH1 n mv' 0%nat Ty). reflexivity.
+    - (* FNil *) intros _ vs o Ty _. destruct vs; try discriminate. reflexivity.
+    - (* FCons *) intros name k IHk r IHr W vs o Ty L. simpl in W. apply andb_true_iff in W. destruct W as [Wk Wr].
+      destruct vs as [|v vr]; try discriminate. simpl in Ty. apply andb_true_iff in Ty. destruct Ty as [Tk Tr].
+      simpl in L. destruct L as [L1 L2].
+      simpl. rewrite L1. rewrite (IHk Wk v Tk). rewrite (IHr Wr vr o Tr L2). reflexivity.
+    - (* MNil *) intros _. split; [intros n mv i Ty; discriminate | reflexivity].
+    - (* MCons *) intros m IHm r IHr W. simpl in W.
+      apply andb_true_iff in W. destruct W as [W Wr].
+      apply andb_true_iff in W. destruct W as [W D].
+      apply andb_true_iff in W. destruct W as [Wm R].
+      destruct (IHr Wr) as [IH1 IH2]. split.
+      + intros n mv i Ty. destruct n as [|n'].
+        * simpl in Ty. simpl. rewrite (IHm Wm mv Ty). f_equal. lia.
+        * simpl in Ty. simpl.
+          rewrite (distinguishable_rejects_variant m r n' mv D Ty). rewrite (IH1 n' mv (S i) Ty). f_equal. lia.
+      + intros i. simpl. rewrite (has_required_rejects_empty m R). apply IH2.
+  Qed.
+
+  Theorem msg_roundtrip m mv :
+    wf_msgb m = true -> typed_msgb T m mv = true -> dec_msg T m (enc_msg T m mv) = Some mv.
+  Proof. intros W Ty. destruct roundtrip_all as [_ [H _]]. apply H; assumption. Qed.
+
+  (* ---------------- the client's untagged ApiResponse<T> | ApiError ---------------- *)
+  Theorem client_decodes_response wrapped order resp err r :
+    wf_msgb resp = true -> typed_msgb T resp r = true ->
+    (wrapped = true -> order = [AVResponse; AVError]) ->
+    client_decode T wrapped order resp err (enc_msg T resp r) = CResponse r.
+  Proof.
+    intros W Ty Ho. unfold client_decode. destruct wrapped.
+    - rewrite (Ho eq_refl). simpl. rewrite msg_roundtrip; auto.
+    - rewrite msg_roundtrip; auto.
+  Qed.
+
+  Theorem client_decodes_error order resp err e :
+    wf_msgb err = true -> typed_msgb T err e = true -> distinguishableb resp err = true ->
+    order = [AVResponse; AVError] ->
+    client_decode T true order resp err (enc_msg T err e) = CError e.
+  Proof.
+    intros W Ty D Ho. unfold client_decode. rewrite Ho. simpl.
+    rewrite (distinguishable_rejects resp err e D Ty). rewrite msg_roundtrip; auto.
+  Qed.
+
+  (* decoding straight into the success type: the error object is not recognised *)
+  Theorem client_unwrapped_loses_error order resp err e :
+    typed_msgb T err e = true -> distinguishableb resp err = true ->
+    client_decode T false order resp err (enc_msg T err e) = CDeserializeError.
+  Proof.
+    intros Ty D. unfold client_decode. rewrite (distinguishable_rejects resp err e D Ty). reflexivity.
+  Qed.
+End Roundtrip.
